@@ -98,6 +98,7 @@ static void Handle(const json& c, vh::Report& r) {
     else if (o == "SetConvention") { refusable = true; result = form->SetConventionFor(u, Words(op["w"])); }
     else if (o == "SetTerm") { refusable = true; result = form->SetTermFor(u, Atoms(op["q"])); }
     else if (o == "SetText") { refusable = true; result = form->SetDefinitionFor(u, Atoms(op["q"])); }
+    else if (o == "SetTermForm") { refusable = true; result = form->SetTermFormFor(u, op["w"][0].get<std::string>(), lang::Morphology{ op["a"].get<std::string>() }); }
     else if (o == "MoveBefore") { refusable = true; auto it = form->List().begin(); for (int k = 1; k < op["p"].get<int>() && it != form->List().end(); ++k) ++it; result = form->MoveBefore(u, it); }
     else if (o == "ResetAliases") { form->ResetAliases(); renames = true; }
     else if (o == "Track") { semantic::TrackingFlags fl{}; fl.allowEdit = op["b"].get<bool>(); form->Mods().Track(u, fl); }
@@ -130,6 +131,8 @@ static void Handle(const json& c, vh::Report& r) {
       else if (g["def"].get<std::string>() != DefText(e["d"])) diff = "definition"; else if (g["conv"].get<std::string>() != Words(e["conv"])) diff = "convention";
       else if (g["term"].get<std::string>() != Atoms(e["term"])) diff = "term"; else if (g["text"].get<std::string>() != Atoms(e["text"])) diff = "text";
       else if (g["tracked"] != e["tracked"] || g["allow"] != e["allow"]) diff = "tracking";
+      else if (e.contains("forms")) { std::map<std::string, std::string> ef, gf; for (auto& p : e["forms"]) ef[lang::Morphology{ p[0].get<std::string>() }.ToString()] = p[1].get<std::string>();
+        for (auto& p : g["forms"]) gf[p[0].get<std::string>()] = p[1].get<std::string>(); if (ef != gf) diff = "manual word forms"; }
     }
     diffContent = diff;
     if (!diff.empty()) {
@@ -167,14 +170,14 @@ static void Handle(const json& c, vh::Report& r) {
       if (form->Texts().TermGraph().HasLoop()) {      // resolved texts are compared only when term references are acyclic (as the statement says)
         for (auto* side : { &reloaded, &mine }) for (auto& it : (*side)["items"]) { it.erase("termStr"); it.erase("textStr"); }
       }
-      if (On("C07") && reloaded != mine) {
+      if (reloaded != mine) {
         // which field?  (ii) compares everything the schema reports incl. value class, tree text, resolved texts
         std::string field = "order";
         for (size_t i = 0; i < mine["items"].size() && i < reloaded["items"].size(); ++i) for (auto& [k, v] : mine["items"][i].items()) if (reloaded["items"][i][k] != v) { field = mine["items"][i]["alias"].get<std::string>() + "." + k; goto found; }
         found:
         const bool analysis = field.find(".ok") != std::string::npos || field.find(".status") != std::string::npos || field.find(".type") != std::string::npos || field.find(".args") != std::string::npos ||
                               field.find(".valueClass") != std::string::npos || field.find(".ast") != std::string::npos || field.find(".deps") != std::string::npos || field.find("Str") != std::string::npos;
-        if (analysis) r.Violation("C07", "incremental state differs from a reloaded copy: " + field.substr(field.find('.') == std::string::npos ? 0 : field.find('.') + 1), wit, { {"field", field}, {"incremental", got}, {"reloaded", reloaded} });
+        if (analysis) { if (On("C07")) r.Violation("C07", "incremental state differs from a reloaded copy: " + field.substr(field.find('.') == std::string::npos ? 0 : field.find('.') + 1), wit, { {"field", field}, {"incremental", got}, {"reloaded", reloaded} }); }
         else if (On("C10")) r.Violation("C10", "content lost or changed by save/load: " + field, wit, { {"field", field} });
       }
       if (On("C10")) {
@@ -228,7 +231,8 @@ static json ObsOf(const RSForm& f) {
       {"ok", p.status == semantic::ParsingStatus::VERIFIED},
       {"type", p.exprType.has_value() ? (std::holds_alternative<rslang::LogicT>(*p.exprType) ? std::string("LOGIC") : AsciiType(std::get<rslang::Typification>(*p.exprType).ToString())) : std::string{}},
       {"args", args}, {"deps", deps},
-      {"vc", p.valueClass == rslang::ValueClass::value ? "value" : p.valueClass == rslang::ValueClass::props ? "props" : "invalid"} }); }
+      {"vc", p.valueClass == rslang::ValueClass::value ? "value" : p.valueClass == rslang::ValueClass::props ? "props" : "invalid"} });
+    json fj = json::array(); for (const auto& [fm, text] : f.GetText(uid).term.GetAllManual()) fj.push_back({ {"f", fm.ToString()}, {"t", text} }); items.back()["forms"] = fj; }
   // clause (ii) of C07 / C10: everything the schema reports equals what a copy reloaded from the saved document reports
   bool same = true;
   try { auto copy = LoadForm(Save(f)); json a = Project(f), b = Project(*copy);
@@ -341,6 +345,9 @@ static int Record(const vh::Args& args) {
         if (res) for (auto u : res->List()) { x["members"].push_back(u); x["aliases"].push_back(res->GetRS(u).alias); x["oks"].push_back(res->GetParse(u).status == semantic::ParsingStatus::VERIFIED); }
         ev = { {"e", "Extract"} }; pendingExt = x; }
       else if (w < 97) { if (g() % 2) { form = LoadForm(Save(*form)); ev = { {"e", "SaveLoad"} }; } else { (void)form->Ops().DeleteDuplicates(); ev = { {"e", "DeleteDuplicates"} }; } }
+      else if (w >= 114) { const auto u = pick(); static const char* forms[] = { "plur,gent", "sing,datv", "sing,gent" }; static const char* texts[] = { "manual", "other" };
+        const std::string f = forms[g() % 3], t = texts[g() % 2]; const bool r = form->SetTermFormFor(u, t, lang::Morphology{ f });
+        ev = { {"e", "SetTermForm"}, {"u", u}, {"f", lang::Morphology{ f }.ToString()}, {"t", t}, {"res", r} }; }
       else { const auto u = pick(); const json q = RandAtoms(g, names, 10); const int which = static_cast<int>(g() % 3);
         if (which == 0) {
           // terms may reference base sets only, and base sets get plain-word terms: term references stay acyclic
